@@ -269,7 +269,11 @@ fn subsets(_t: Tier) -> Box<dyn Iterator<Item = SetCase>> {
 
 pub fn check_completed(c: &SetCase, obs: &mut Obs) -> Result<(), String> {
     let mut s = Summary::new();
-    for i in &c.vars {
+    // the order of the calls rotates with the case, so that every variable (also a pushed list)
+    // is the completing call somewhere
+    let rot = c.vars.iter().sum::<usize>() % c.vars.len().max(1);
+    let order: Vec<usize> = c.vars[rot..].iter().chain(c.vars[..rot].iter()).copied().collect();
+    for i in &order {
         let v = match VARS.get(*i).map(|v| v.1) {
             Some(Kind::Scalar) => Val::S(String::new()),
             Some(Kind::Int) => Val::I(0),
@@ -281,7 +285,7 @@ pub fn check_completed(c: &SetCase, obs: &mut Obs) -> Result<(), String> {
         };
         // ask before and after every call (an answer must never be remembered), and build list
         // variables through push_* every other time
-        let set_so_far: Vec<usize> = c.vars.iter().take_while(|x| *x != i).copied().collect();
+        let set_so_far: Vec<usize> = order.iter().take_while(|x| *x != i).copied().collect();
         let complete_so_far = m::required().iter().all(|r| set_so_far.contains(r));
         if s.is_completed() != complete_so_far {
             return Err(format!("is_completed() = {} after setting {:?}", s.is_completed(), set_so_far));
